@@ -837,6 +837,10 @@ def parse_range_header(
             if begin < last_end or last_end < 0:
                 return None
             if end_str:
+                # A last-byte-pos is digits only, "0--0" is not a range.
+                if end_str.startswith("-"):
+                    return None
+
                 try:
                     end = _plain_int(end_str) + 1
                 except ValueError:
